@@ -9,7 +9,11 @@ import TinsModel.Dns.CompressMsg
 /-
   Property C10 — DNS messages stay coherent under parsing, editing and name compression.
   Only the property theorems live here; the model is `TinsModel/Dns/Model.lean`, the specification
-  `TinsModel/Dns/Spec.lean`, helper lemmas `TinsModel/Dns/{Lemmas,Safety,Names,Records,Refine,Compose}.lean`.
+  `TinsModel/Dns/Spec.lean`, helper lemmas `TinsModel/Dns/{Lemmas,Safety,Names,Records,Refine,Compose}.lean`;
+  for stored messages with name compression: `Layout` (layout relation, `wfMsg`), `LayoutSound`, `LayoutShift`
+  (transport), `UpdateLayout` (`update_records` on a layout), `Via` (pointer-target invariant, `compose_name`
+  complete), `GetLayout` / `GetSound` (getters, constructor), `WireLayout`, `MsgLayout`, `Insert`, `InsertSec`,
+  `EditBuf`, `EditWf`, `EditAny` (one insertion), `CompressName`, `CompressMsg` (the reference compressor).
 -/
 namespace Tins.Props.C10
 open Tins Tins.Dns
@@ -310,7 +314,8 @@ theorem insertion_is_shift {m m' : Msg} {sec : Section} {r : NewRec} (hm : Reach
       ∀ x, R x → insPoint m sec ≤ x :=
   addRecord_shifted (reachable_inv hm) h hdisj
 
-/-- **pointers_preserved, proved part**: after such an insertion every name that resolved at offset `p` (RFC 1035
+/-- **pointers_preserved for ANY stored bytes** (the full-strength theorem for well-formed messages is
+    `pointers_preserved` in §6): after such an insertion every name that resolved at offset `p` (RFC 1035
     §4.1.4) resolves to the same labels with the same number of jumps at the offset the splice moved `p` to —
     provided every pointer on its resolution path whose target moves is one of the re-targeted ones (`R`), untouched
     pointers designate names before the insertion point, and no label straddles the insertion point
